@@ -606,6 +606,10 @@ def w_op_recording(props=None, case=None):
         draws = s.g.get('draws', [])
         obl.append(Obl('C17/%s/at_most_one_draw_per_decision' % U, 'C17', s, z3.BoolVal(len(draws) <= 1), oc))
         dec = s.g.get('decision')
+        if s.g.get('idle_at_decision') is not None:
+            # the sampling decision and the finalisation that follows are framework steps that can fail (a rate that is not a number, a cassette
+            # error): the run's state must be gone BEFORE them, or such a failure leaves the recorder recording for ever
+            obl.append(Obl('C09/%s/recorder_already_idle_when_the_sampling_decision_is_taken' % U, ('C09', 'C05'), s, s.g['idle_at_decision'], oc))
         if dec is not None:
             force, rate = dec; d = draws[0] if draws else None
             obl.append(Obl('C17/%s/no_draw_when_forced_or_full_rate' % U, 'C17', s, z3.Implies(z3.Or(force, rate >= 1), z3.BoolVal(d is None)), oc))
